@@ -465,14 +465,23 @@ func (p *Proxy) handleConnectRequest(ctx *Context, req *http.Request, session *S
 			return nil
 		}
 
+		// This is an ordinary response on a connection that stays an HTTP
+		// connection: like in handle, tell the client when it is the last one.
+		var closing error
+		if req.Close || res.Close || p.Closing() {
+			res.Close = true
+			closing = errClose
+		}
+
 		if err := res.Write(brw); err != nil {
 			log.Errorf("martian: got error while writing response back to client: %v", err)
 		}
 		err := brw.Flush()
 		if err != nil {
 			log.Errorf("martian: got error while flushing response back to client: %v", err)
+			return err
 		}
-		return err
+		return closing
 	}
 	defer res.Body.Close()
 	defer cconn.Close()
